@@ -3,6 +3,7 @@ package drv
 import (
 	"bytes"
 	"fmt"
+	"github.com/benoitkugler/webrender/css/counters"
 	pr "github.com/benoitkugler/webrender/css/properties"
 	"github.com/benoitkugler/webrender/text/hyphen"
 	"io"
@@ -67,7 +68,8 @@ type Opts struct {
 	Files    map[string]string // in-memory resources served by the url fetcher (url -> content)
 	BaseURL  string
 	Zoom     float32
-	FreshFC  bool // build a private font configuration
+	FreshFC  bool                  // build a private font configuration
+	Counters counters.CounterStyle // receives the @counter-style rules (Styles only)
 	MimeType map[string]string
 }
 
@@ -219,6 +221,6 @@ func Styles(htmlText string, o *Opts) (*tree.HTML, *tree.StyleFor, error) {
 	}
 	var pageRules []tree.PageRule
 	tc := tree.NewTargetCollector()
-	sf := tree.GetAllComputedStyles(h, ss, o.Hints, o.fc(), nil, &pageRules, &tc, false, NewTextCtx(o.fc()))
+	sf := tree.GetAllComputedStyles(h, ss, o.Hints, o.fc(), o.Counters, &pageRules, &tc, false, NewTextCtx(o.fc()))
 	return h, sf, nil
 }
